@@ -62,8 +62,13 @@ def start(prop_id):
     for fn, lo, hi, _ in ranges:
         byfile.setdefault(os.path.realpath(os.path.join(env.REPO, fn)), []).append((lo, hi))
     hits = set()
+    full = os.environ.get("VERIF_FULLCOV")        # dev aid: directory that receives every executed nflows line
+    allhits = set()
+    root = os.path.join(os.path.realpath(env.REPO), "nflows") + os.sep
 
     def on_line(code, line):
+        if full and os.path.realpath(code.co_filename).startswith(root):
+            allhits.add((os.path.realpath(code.co_filename)[len(root):], line))
         rs = byfile.get(code.co_filename)
         if rs is None:
             rs = byfile.get(os.path.realpath(code.co_filename))
@@ -80,7 +85,7 @@ def start(prop_id):
         return None
     mon.register_callback(TOOL, mon.events.LINE, on_line)
     mon.set_events(TOOL, mon.events.LINE)
-    return {"hits": hits, "ranges": ranges, "prop": prop_id}
+    return {"hits": hits, "ranges": ranges, "prop": prop_id, "full": full, "allhits": allhits}
 
 
 def stop(state):
@@ -88,6 +93,10 @@ def stop(state):
     mon.set_events(TOOL, 0)
     mon.register_callback(TOOL, mon.events.LINE, None)
     mon.free_tool_id(TOOL)
+    if state.get("full"):
+        os.makedirs(state["full"], exist_ok=True)
+        with open(os.path.join(state["full"], "%s-%d.json" % (state["prop"], os.getpid())), "w") as f:
+            json.dump(sorted(state["allhits"]), f)
     return sorted([os.path.relpath(f, env.REPO), ln] for f, ln in state["hits"])
 
 
